@@ -109,6 +109,7 @@ fn cases(tier: Tier) -> &'static Vec<Case> {
         // history family: EVERY pipeline of 2..3 (thorough: 4) requests drawn from a small
         // per-request alphabet, so that the decision for one request is exercised after
         // every kind of predecessor (a persistence decision must not depend on history)
+        let _ = ();
         const ATOMS: [(&str, Option<&str>); 10] = [
             ("2.0", None),
             ("2.0", Some("close")),
@@ -150,13 +151,30 @@ fn cases(tier: Tier) -> &'static Vec<Case> {
                 }
             }
         }
+        // the decision for each atom after a long history of plain exchanges (a connection must
+        // not be ended, nor kept, because of how much it has carried)
+        for h in history_lengths(deep(tier)) {
+            for (ver, cv) in ATOMS {
+                for (_, tail) in &tails {
+                    let mut b = history(h);
+                    b.extend_from_slice(&request("/last", ver, cv));
+                    b.extend_from_slice(tail);
+                    v.push(Case {
+                        class: format!("after-history-http{}-{}", ver, cv.map(|c| c.to_ascii_lowercase().replace(", ", "+")).unwrap_or_else(|| "absent".into())),
+                        bytes: b,
+                        half_close: false,
+                        deferred: false,
+                    });
+                }
+            }
+        }
         v
     })
 }
 
 fn scenario(c: &Case) -> Scenario {
     let mut sc = Scenario::one_conn(
-        vec![c.bytes.clone()],
+        split_history(&c.bytes),
         AppProgram::uniform(ReqPlan {
             read: ReadPlan::None,
             finish: Finish::Respond(RespSpec::ok(2)),
@@ -211,7 +229,7 @@ impl Check for C12 {
     }
     fn rule(&self, tier: Tier) -> String {
         format!(
-            "version {{1.0, 1.1}} x Connection header {:?} at every position of a pipeline of 1..{} requests x following bytes {{nothing, a further complete request, garbage}} x client half-closing afterwards or not x application answering immediately or on a later signal; {} conversations; token-based reference model: requests after the connection-ending one are never delivered, the client sees exactly the answers of the received requests then end-of-stream; otherwise the connection stays open; after a client half-close everything received is answered, then end-of-stream || history family: EVERY pipeline of 2..{} requests over 10 (version, Connection) atoms {{2.0 absent/close (refused with 505, the connection goes on), 1.1 absent/keep-alive/close, 1.0 absent/keep-alive/'Keep-Alive, foo'/te/close}} x the same following bytes x half-close or not (the decision for a request is exercised after every kind of predecessor)",
+            "version {{1.0, 1.1}} x Connection header {:?} at every position of a pipeline of 1..{} requests x following bytes {{nothing, a further complete request, garbage}} x client half-closing afterwards or not x application answering immediately or on a later signal; {} conversations; token-based reference model: requests after the connection-ending one are never delivered, the client sees exactly the answers of the received requests then end-of-stream; otherwise the connection stays open; after a client half-close everything received is answered, then end-of-stream || history family: EVERY pipeline of 2..{} requests over 10 (version, Connection) atoms {{2.0 absent/close (refused with 505, the connection goes on), 1.1 absent/keep-alive/close, 1.0 absent/keep-alive/'Keep-Alive, foo'/te/close}} x the same following bytes x half-close or not (the decision for a request is exercised after every kind of predecessor) || each atom after a history of 64 / 100 / 1024 (thorough: 19 lengths from 63 to 4097) answered exchanges x the same following bytes",
             CONN_VALUES, if deep(tier) { 4 } else { 3 }, cases(tier).len(), if deep(tier) { 4 } else { 3 }
         )
     }
